@@ -9,6 +9,7 @@ import re
 from ..astutil import calls_in, call_name, dotted, norm, walk_no_nested
 from ..cfg import cfg_of
 from ..core import AnalysisError
+from ..exprnorm import conjuncts
 
 SO = "ethosu/vela/tflite_supported_operators.py"
 SEM = "ethosu/vela/tflite_model_semantic.py"
@@ -245,6 +246,10 @@ def run(repo, rep):
     rep.run_borrowed(c11, {"C11-d": "C16-d"}, repo, only_sites=("tflite_writer",))
     rep.clause("C16-g", "rewrites that are applied to operators regardless of their placement re-wire nothing before the merged operator has been found supported: an operator that stays on the CPU stays unchanged [rule shared with C11-m]")
     rep.run_borrowed(c11, {"C11-m": "C16-g", "C11-e": "C16-g"}, repo)
+    rep.clause("C16-h", "trial guards: a rewrite that tested a merged trial operator goes ahead only if the trial is semantically valid and supported (truth table of the guard)")
+    rep.clause("C16-i", "MemoryOnly passes join an NPU subgraph only if their operator is placed on the NPU")
+    rep.clause("C16-j", "placement tests read the operator at hand: no loop variable is read after its loop has ended")
+    rule_round7(repo, rep)
     _so, _sem = repo.mod("tflite_supported_operators"), repo.mod("tflite_model_semantic")
     rule_round4(repo, rep, [("tflite_supported_operators", "TFLiteSupportedOperators", registrations(repo, _so, "TFLiteSupportedOperators")[1]),
                             ("tflite_model_semantic", "TFLiteSemantic", registrations(repo, _sem, "TFLiteSemantic")[1])])
@@ -740,3 +745,52 @@ def rule_round4(repo, rep, regs):
     ok = isinstance(v, ast.BinOp) and isinstance(v.op, (ast.FloorDiv, ast.Div)) and str(norm(v.right)) in ("op.ifm.shape[-1]", "op.ifm.shape[3]") and str(norm(v.left)).startswith("op.weights.shape[")
     rep.check(ok, "C16-b", "ethosu/vela/tflite_reader.py:TFLiteSubgraph.parse_operator", "depth_multiplier = weight channels // IFM channels (what 'For depth multipliers > 1, IFM channels must be 1' tests)",
               f"`{str(norm(v))}`: the depthwise constraint then sees multiplier 1 for every supported and unsupported case alike")
+
+
+def rule_round7(repo, rep):
+    """(h) a rewrite that decides on a trial operator leaves the source alone unless the trial is semantically valid *and* supported:
+    the guard in front of `return op` is evaluated for all truth assignments of the two checks. (i) a MemoryOnly pass joins the
+    neighbouring NPU subgraph only if its operator was placed on the NPU (a RESHAPE rejected by a listed constraint stays a CPU
+    operator). (j) pass packing judges each operator by its own placement: no loop variable of a finished loop is read."""
+    import itertools
+
+    from .c13 import _atoms, _bool_eval
+    from .shared import stale_loop_variable_lint
+
+    go = repo.mod("tflite_graph_optimiser")
+    n = 0
+    for q, fn in go.functions.items():
+        for i in ast.walk(fn):
+            if not (isinstance(i, ast.If) and i.body and isinstance(i.body[0], ast.Return)):
+                continue
+            t = str(norm(i.test))
+            if "is_operator_semantic_valid(" in t and "is_operator_supported(" in t:
+                atoms = sorted(_atoms(i.test, set()))
+                sem_a = [a for a in atoms if "is_operator_semantic_valid(" in a]
+                sup_a = [a for a in atoms if "is_operator_supported(" in a]
+                if len(atoms) != 2 or len(sem_a) != 1 or len(sup_a) != 1:
+                    raise AnalysisError(f"{q}: trial guard `{t[:80]}` has atoms {atoms}")
+                n += 1
+                wrong = []
+                for sv, pv in itertools.product((False, True), repeat=2):
+                    leaves_alone = _bool_eval(i.test, {sem_a[0]: sv, sup_a[0]: pv})
+                    if leaves_alone != (not (sv and pv)):
+                        wrong.append((sv, pv, leaves_alone))
+                rep.check(not wrong, "C16-h", f"ethosu/vela/tflite_graph_optimiser.py:{q}", "the source operators are left alone unless the trial operator is semantically valid and supported (4 assignments)",
+                          (f"`{t[:100]}`: for (semantic valid, supported) = {[(a, b) for a, b, _ in wrong]} the rewrite {'returns' if wrong[0][2] else 'goes ahead'}: "
+                           "a merged operator that violates a listed constraint (batch 2, a dimension of 70000) is put on the NPU") if wrong else "")
+    if n < 1:
+        raise AnalysisError("tflite_graph_optimiser: no trial guard (semantic valid and supported) found")
+    ex = repo.mod("extract_npu_subgraphs")
+    f = ex.func("extract_subgraph")
+    site = "ethosu/vela/extract_npu_subgraphs.py:extract_subgraph"
+    tests = [i for i in ast.walk(f) if isinstance(i, ast.If) and "PassPlacement.MemoryOnly" in str(norm(i.test)) and any("place_vec[idx]" in str(norm(x)) for x in ast.walk(i) if isinstance(x, ast.Assign))]
+    if not tests:
+        raise AnalysisError("extract_subgraph: re-placement of MemoryOnly passes not found")
+    for i in tests:
+        cj = [str(norm(c)) for c in conjuncts(i.test)]
+        rep.check(any(c.endswith(".run_on_npu") and "not " not in c for c in cj), "C16-i", site, f"`{str(norm(i.test))[:80]}`: a MemoryOnly pass is handed to the NPU only if its operator is placed there",
+                  "the placement of the operator is not consulted: a RESHAPE / SQUEEZE / EXPAND_DIMS that a listed constraint keeps on the CPU (non-constant shape, mismatching quantisation) is absorbed by the neighbouring NPU subgraph")
+    n2, _ = stale_loop_variable_lint(repo, rep, "C16-j", ["pass_packing", "extract_npu_subgraphs", "tflite_supported_operators", "tflite_model_semantic", "graph_optimiser_util"])
+    if n2 < 20:
+        raise AnalysisError(f"stale loop variable lint: {n2} loops")
